@@ -10,6 +10,23 @@ OPT_KEYS = ('center_extrema', 'burst_method', 'burst_kwargs', 'threshold_kwargs'
             'return_samples')
 
 
+def as_view(sig, view):
+    """A private copy of the samples, optionally laid out differently: 'strided' = a non-contiguous view of a larger buffer
+    (one channel of an interleaved recording), 'readonly' = a read-only array (memory-mapped file), 'reversed' = a
+    negative-stride view."""
+    sig = np.array(sig, copy=True)
+    if view == 'strided':
+        buf = np.empty(2 * len(sig), dtype=sig.dtype)
+        buf[::2] = sig
+        buf[1::2] = 77 if sig.dtype.kind in 'iu' else 12345
+        return buf[::2]
+    if view == 'reversed':
+        return np.array(sig[::-1], copy=True)[::-1]
+    if view == 'readonly':
+        sig.flags.writeable = False
+    return sig
+
+
 def fresh_options(case):
     return {k: copy.deepcopy(case[k]) for k in OPT_KEYS if k in case}
 
@@ -19,16 +36,7 @@ def call(case, api='func', shared=None):
     across several calls, as a script that writes its options once does).  Returns (table | None, exception | None)."""
     from bycycle.features import compute_features
     kw = fresh_options(case) if shared is None else shared
-    sig = np.array(case['sig'], copy=True)
-    view = case.get('sig_view')
-    if view == 'strided':
-        # the same samples as a non-contiguous view of a larger buffer (e.g. one channel of an interleaved recording)
-        buf = np.empty(2 * len(sig), dtype=sig.dtype)
-        buf[::2] = sig
-        buf[1::2] = 12345
-        sig = buf[::2]
-    elif view == 'readonly':
-        sig.flags.writeable = False
+    sig = as_view(case['sig'], case.get('sig_view'))
     try:
         with quiet():
             if api == 'func':
